@@ -287,7 +287,14 @@ class MessageManager(ClientLike):
             module.mod_id = msg.data.mod_id
             module.unique = msg.data.allow_multiple == 0
             module.pid = msg.data.pid
-            module.name = msg.data.name
+            try:
+                module.name = msg.data.name
+            except UnicodeDecodeError:
+                self.logger.error(
+                    f"SET_NAME - {module.ipaddr} - ID({module.mod_id}) - Name is not valid ascii. Closing connection."
+                )
+                self.remove_module(module)
+                return False
         elif isinstance(msg.data, cd.MDF_CONNECT):
             module.mod_id = msg.header.src_mod_id
         else:
@@ -455,18 +462,29 @@ class MessageManager(ClientLike):
         mr = cd.MDF_MODULE_READY.from_buffer(msg.data)
         src_module.pid = mr.pid
 
-    def set_module_name(self, src_module: Module, msg: Message):
+    def set_module_name(self, src_module: Module, msg: Message) -> bool:
         """Set a module name
 
         Args:
             src_module (Module): Module that sent CLIENT_SET_NAME
             msg (Message): Incoming CLIENT_SET_NAME message
+
+        Returns:
+            bool: success code
         """
         name_msg = cd.MDF_CLIENT_SET_NAME.from_buffer(msg.data)
-        src_module.name = name_msg.name or ""
+        try:
+            src_module.name = name_msg.name or ""
+        except UnicodeDecodeError:
+            self.logger.error(
+                f"SET_NAME - {src_module.ipaddr} - ID({src_module.mod_id}) - Name is not valid ascii. Closing connection."
+            )
+            self.remove_module(src_module)
+            return False
         self.logger.info(
             f"SET_NAME - {src_module.ipaddr} - ID({src_module.mod_id}) - {src_module.name}"
         )
+        return True
 
     def read_message(self, sock: socket.socket) -> bool:
         """Read an incoming message
@@ -872,8 +890,8 @@ class MessageManager(ClientLike):
             self.resume_subscription(src_module, self.message)
             self.send_ack(src_module)
         elif msg_type == cd.MT_CLIENT_SET_NAME:
-            self.set_module_name(src_module, self.message)
-            self.send_client_info(src_module)
+            if self.set_module_name(src_module, self.message):
+                self.send_client_info(src_module)
         elif msg_type == cd.MT_MODULE_READY:
             self.register_module_ready(src_module, self.message)
             self.send_client_info(src_module)
